@@ -4,6 +4,7 @@ import (
 	"encoding/hex"
 	"fmt"
 	"os"
+	"reflect"
 	"strings"
 	"time"
 
@@ -16,7 +17,7 @@ import (
 // Suite fuzz (search, not proof): every decoder entry point on bytes derived from
 // valid encodings by mutation, and on random bytes, under recover().
 //
-//   C08 fuzz <format>:<Record> <hex input> => err | ok:reenc-ok | ok:reenc-err | ok:reenc-panic:<msg> | panic:<msg>
+//   C08 fuzz <format>:<Record> <hex input> => err | ok:reenc-ok | ok:reenc-err[:class] | ok:reenc-panic:<msg>[:class] | panic:<msg>
 //   C08 fuzz str:<ts|pt|pm|ips> <hex input> => ok:reenc-ok | panic
 
 func runFuzz(out *common.Out, decoder string, input []byte) {
@@ -68,16 +69,146 @@ func fuzzOne(decoder string, input []byte) string {
 	if err != nil {
 		return "err"
 	}
-	// the decoded value must be encodable again (a fresh addressable copy is what decode returned)
+	// the decoded value must be encodable again, in the format it came in; in the other tag-driven
+	// formats the record uses (an RPC reply is served as JSON by the REST API) only a panic counts.
+	class := ""
+	if hasNilAddr(val) {
+		class = ":nil-multiaddr"
+	}
 	err, pan = guarded("fuzz re-encode "+decoder, func() (e error) { _, e = encode(rec, format, val); return })
 	if pan {
-		return panicTok("ok:reenc-panic")
+		return panicTok("ok:reenc-panic") + class
 	}
-	if err != nil {
-		return "ok:reenc-err"
+	sameErr := err
+	if format == wire.FMsgpack || format == wire.FMsgpackRaft || format == wire.FJSON {
+		for _, f := range rec.Formats {
+			if f == format || (f != wire.FJSON && f != wire.FMsgpack) {
+				continue
+			}
+			_, pan = guarded("fuzz re-encode "+decoder+" as "+f, func() (e error) { _, e = encode(rec, f, val); return })
+			if pan {
+				return panicTok("ok:reenc-panic") + class
+			}
+		}
+	}
+	if sameErr != nil {
+		return "ok:reenc-err" + class
 	}
 	return "ok:reenc-ok"
 }
+
+// hasNilAddr: does the decoded value hold an api.Multiaddr wrapping no address? (the harness's own walk)
+func hasNilAddr(v reflect.Value) (found bool) {
+	defer func() {
+		if recover() != nil {
+			found = false
+		}
+	}()
+	for _, kv := range wire.Flatten(v) {
+		for _, e := range strings.Split(kv.V, ",") {
+			if e == "m-" {
+				return true
+			}
+		}
+	}
+	return false
+}
+
+// msgpackValues lists the [start,end) ranges of every value of a msgpack document (best effort, the
+// subset ugorji writes); used to replace whole values.
+func msgpackValues(b []byte) [][2]int {
+	var out [][2]int
+	var walk func(p int) int
+	walk = func(p int) int {
+		if p >= len(b) || len(out) > 4000 {
+			return -1
+		}
+		start := p
+		c := b[p]
+		be := func(n int) int {
+			if p+1+n > len(b) {
+				return -1
+			}
+			v := 0
+			for i := 0; i < n; i++ {
+				v = v<<8 | int(b[p+1+i])
+			}
+			return v
+		}
+		end := -1
+		seq := func(hdr, n int) int { // n nested values after a header of hdr bytes
+			q := p + hdr
+			for i := 0; i < n; i++ {
+				q = walk(q)
+				if q < 0 {
+					return -1
+				}
+			}
+			return q
+		}
+		switch {
+		case c <= 0x7f || c >= 0xe0 || c == 0xc0 || c == 0xc2 || c == 0xc3:
+			end = p + 1
+		case c >= 0x80 && c <= 0x8f:
+			end = seq(1, 2*int(c&0x0f))
+		case c >= 0x90 && c <= 0x9f:
+			end = seq(1, int(c&0x0f))
+		case c >= 0xa0 && c <= 0xbf:
+			end = p + 1 + int(c&0x1f)
+		case c == 0xc4 || c == 0xd9:
+			if n := be(1); n >= 0 {
+				end = p + 2 + n
+			}
+		case c == 0xc5 || c == 0xda:
+			if n := be(2); n >= 0 {
+				end = p + 3 + n
+			}
+		case c == 0xc6 || c == 0xdb:
+			if n := be(4); n >= 0 {
+				end = p + 5 + n
+			}
+		case c == 0xcc || c == 0xd0:
+			end = p + 2
+		case c == 0xcd || c == 0xd1:
+			end = p + 3
+		case c == 0xce || c == 0xd2 || c == 0xca:
+			end = p + 5
+		case c == 0xcf || c == 0xd3 || c == 0xcb:
+			end = p + 9
+		case c == 0xd4:
+			end = p + 3
+		case c == 0xd5:
+			end = p + 4
+		case c == 0xd6:
+			end = p + 6
+		case c == 0xd7:
+			end = p + 10
+		case c == 0xd8:
+			end = p + 18
+		case c == 0xc7:
+			if n := be(1); n >= 0 {
+				end = p + 3 + n
+			}
+		case c == 0xdc:
+			if n := be(2); n >= 0 && n < 10000 {
+				end = seq(3, n)
+			}
+		case c == 0xde:
+			if n := be(2); n >= 0 && n < 10000 {
+				end = seq(3, 2*n)
+			}
+		}
+		if end < 0 || end > len(b) {
+			return -1
+		}
+		out = append(out, [2]int{start, end})
+		return end
+	}
+	walk(0)
+	return out
+}
+
+var msgpackJunk = [][]byte{{0xc0}, {0x90}, {0x80}, {0x00}, {0xff}, {0xa0}, {0xc4, 0x00}, {0xc3}, {0x91, 0xc0}, {0x81, 0xa0, 0xc0}, {0xa1, 'x'}, {0xc4, 0x01, 0x00}, {0xd6, 0xff, 0, 0, 0, 0}, {0xcf, 0xff, 0xff, 0xff, 0xff, 0xff, 0xff, 0xff, 0xff}}
 
 var interesting = []byte{0x00, 0x01, 0x7f, 0x80, 0xff, 0xc0, 0xc1, 0xc4, 0xc6, 0xd9, 0xdb, 0xdc, 0xdd, 0xde, 0xdf, 0xa0, 0x90, 0x91, 0x81, 0xcf, 0xd3, 0xd6, 0xd7, 0xc7, '{', '}', '[', ']', '"', ',', ':', '&', '=', '%'}
 
@@ -129,6 +260,14 @@ func mutate(r *common.Rng, format string, bs []byte) []byte {
 					e = len(s)
 				}
 				b = []byte(s[:a] + jsonJunk[r.Intn(len(jsonJunk))] + s[e:])
+				continue
+			}
+		}
+		if (format == wire.FMsgpack || format == wire.FMsgpackRaft) && r.Chance(1, 2) {
+			if vals := msgpackValues(b); len(vals) > 0 {
+				v := vals[r.Intn(len(vals))]
+				junk := msgpackJunk[r.Intn(len(msgpackJunk))]
+				b = append(append(append([]byte(nil), b[:v[0]]...), junk...), b[v[1]:]...)
 				continue
 			}
 		}
